@@ -925,10 +925,14 @@ class BuildTarget(Target):
         self.resources = kwargs.get('resources', [])
         name_prefix = kwargs.get('name_prefix')
         if name_prefix is not None:
+            if has_path_sep(name_prefix):
+                raise InvalidArguments(f'name_prefix {name_prefix!r} must not contain a path separator.')
             self.prefix = name_prefix
             self.name_prefix_set = True
         name_suffix = kwargs.get('name_suffix')
         if name_suffix is not None:
+            if has_path_sep(name_suffix):
+                raise InvalidArguments(f'name_suffix {name_suffix!r} must not contain a path separator.')
             self.suffix = name_suffix
             self.name_suffix_set = True
         self.implicit_include_directories = kwargs.get('implicit_include_directories', True)
